@@ -34,9 +34,9 @@ func (Engine) Budget(tier, prop string) (int, int) {
 }
 func (Engine) Describe() simcore.Description {
 	return simcore.Description{
-		Real: []string{"full OsmosisApp: x/lockup keeper, msg server and gRPC querier, its hooks into x/incentives and x/superfluid, osmoutils/sumtree accumulation store, bank, real BeginBlocker/EndBlocker of every module, IAVL commit per block, SDK gas metering"},
-		Stub: []string{"CometBFT (the simulator supplies header time/height and message order)", "ante/post handlers (sender taken as authenticated, no fees)"},
-		Rule: "one run = 2-5 owners, 3 denominations (one a byte-prefix of another), 6 durations incl. two 1ns apart; steps are lock / add-to-lock / begin-unlock (full, partial->split) / begin-unlock-all / extend / set-receiver / force-unlock (allow-listed or not) messages, clock advances and bursts of empty blocks across heights divisible by 120, with seeded out-of-gas (gas limit = fraction of the message's own gas use), forced roll-back and node restarts; after every message and block the module balance, accumulation totals, every lock query and balance conservation are compared with a lock-table reference.",
+		Real:        []string{"full OsmosisApp: x/lockup keeper, msg server and gRPC querier, its hooks into x/incentives and x/superfluid, osmoutils/sumtree accumulation store, bank, real BeginBlocker/EndBlocker of every module, IAVL commit per block, SDK gas metering"},
+		Stub:        []string{"CometBFT (the simulator supplies header time/height and message order)", "ante/post handlers (sender taken as authenticated, no fees)"},
+		Rule:        "one run = 2-5 owners, 3 denominations (one a byte-prefix of another), 6 durations incl. two 1ns apart; steps are lock / add-to-lock / begin-unlock (full, partial->split) / begin-unlock-all / extend / set-receiver / force-unlock (allow-listed or not) messages, clock advances and bursts of empty blocks across heights divisible by 120, with seeded out-of-gas (gas limit = fraction of the message's own gas use), forced roll-back and node restarts; after every message and block the module balance, accumulation totals, every lock query and balance conservation are compared with a lock-table reference.",
 		Assumptions: []string{"time-based queries are evaluated at instants at least 1ns away from any lock end time or now+duration (the query comments do not fix the meaning of exact equality)", "owners are plain accounts; no superfluid staking in this engine (C11 covers it)"},
 	}
 }
